@@ -97,7 +97,12 @@ def run_check(pid, tier, seed_, n_override=None, workers=None, replay=None, no_s
     if replay:
         data = json.load(open(replay))
         case = data["case"] if isinstance(data, dict) and "case" in data else data
-        oc = safe_check(prop, case)
+        try:
+            oc = safe_check(prop, case)
+        except core.Inconclusive:
+            print("INCONCLUSIVE property=%s (the case could not be decided: load / wall-clock guard)" % pid)
+            shutil.rmtree(tmp, ignore_errors=True)
+            return 2
         for v in oc.violations:
             print("  violation sig=%s\n    %s" % (v.sig, v.msg.replace("\n", "\n    ")))
         for l in known_lines.values():
